@@ -26,7 +26,7 @@ theorem rev_lt (b i : Nat) : rev b i < 2 ^ b := by
 /-- the same permutation peeling the highest bit instead -/
 theorem rev_succ_high (b i : Nat) : rev (b + 1) i = 2 * rev b (i % 2 ^ b) + (i / 2 ^ b) % 2 := by
   induction b generalizing i with
-  | zero => simp [rev, Nat.mod_one]
+  | zero => simp [rev]
   | succ b ih =>
     have e1 : i % 2 ^ (b + 1) % 2 = i % 2 := Nat.mod_mod_of_dvd i (by rw [pow_succ]; exact Dvd.intro_left _ rfl)
     have e2 : i % 2 ^ (b + 1) / 2 = i / 2 % 2 ^ b := by
